@@ -1138,7 +1138,9 @@ pub fn parse(lex_tokens: &Vec<LexerToken>) -> Result<ParseResult, CompilerError>
                     Some(left) => match nodes.get_mut(left) {
                         None => implementation_error_with_token(format!("Index assigned to node has no value in node list. {:?}", left), token)?,
                         Some(left_node) => {
-                            if left_node.definition.is_optional() || left == ended_group {
+                            // only a right operand that never materialised is unset, a bracket whose content is a
+                            // side-effect block (`([])`, `(1, [2])`) keeps it
+                            if (left_node.definition.is_optional() || left == ended_group) && left_node.right == Some(current_id) {
                                 left_node.right = None;
                             }
 
